@@ -119,6 +119,113 @@ def _(c):
     c.ensure("velocity_is_derivative", np.linalg.norm(fd - st[3:]) <= (0.02 if body == "Sun" else 0.05) * np.linalg.norm(fd))
 
 
+@contract("C18", "bsp.tables", funcs=[f"{JPL}:Bsp.pairs.fget", f"{JPL}:Bsp.segments.fget"],
+          assumptions=["precedence between kernels that provide the same (centre, target) pair is the SPICE one: the kernel listed last is served"])
+def _(c):
+    """the table of (centre, target) pairs served is the union of the kernels' tables, a pair provided by several kernels being taken from the one listed LAST (the usual
+    SPICE precedence: satellite kernels listed after the planetary one carry their own Sun / barycentre segments); `segments` lists every segment of every kernel, in order"""
+    if not c.symbolic:
+        return
+    n = c.choice("files", [1, 2, 3])
+    S = lambda k, name: types.SimpleNamespace(file=k, name=name)
+    files = []
+    for k in range(n):
+        pairs = {(0, 3): S(k, "emb"), (3, 399): S(k, "earth")}
+        if k != 1:
+            pairs[(0, 4)] = S(k, "mars")
+        if k == 2:
+            pairs[(4, 499)] = S(k, "mars-planet")
+        files.append(types.SimpleNamespace(pairs=pairs, segments=list(pairs.values())))
+    w = c.world()
+    bsp = w.obj(f"{JPL}:Bsp", _spk=files)
+    table = bsp.pairs
+    want = {}
+    for k, f in enumerate(files):
+        for key, seg in f.pairs.items():
+            want[key] = seg
+    c.ensure("union_of_the_kernels", bool(set(table.keys()) == set(want.keys())))
+    c.ensure("last_listed_kernel_served", bool(all(table[key] is want[key] for key in want)))
+    c.ensure("segments_in_order", bool([id(x) for x in bsp.segments] == [id(x) for f in files for x in f.segments]))
+
+
+def _grid_kernels(tier, rng):
+    """kernel lists {[2000-2005 excerpt of the kernel, complete kernel], [complete kernel, complete kernel]} x dates 2002 / 2011 / 2018 x pairs (Mars, Earth), (Moon, Sun),
+    (JupiterBarycenter, Venus)"""
+    for conf in (0, 1):
+        for mjd in (52400.3, 55800.6, 58300.2):
+            for pair in (0, 1, 2):
+                yield {"conf": conf, "mjd": mjd, "pair": pair}
+
+
+@contract("C18", "jpl.several_kernels", funcs=[f"{JPL}:Bsp.pairs.fget", f"{JPL}:JplPropagator.propagate", f"{JPL}:create_frames"], grid=_grid_kernels, level="bounded")
+def _(c):
+    """bounded: with several kernels configured, a date covered by the kernel listed last is served from it even when a kernel listed before it provides the same pairs over
+    a shorter span: the vector equals the complete kernel's directly chained segments (1 mm)"""
+    import shutil
+    import tempfile
+    from beyond.config import config
+    from beyond.dates import Date
+    from beyond.env import jpl
+    from jplephem.spk import SPK
+    from jplephem.excerpter import write_excerpt
+    import logging
+    logging.getLogger("beyond.frames.frames").setLevel(logging.ERROR)
+    _cfg()
+    full = "/repo/tests/data/jpl/de403_2000-2020.bsp"
+    tmp = tempfile.mkdtemp(prefix="c18_kernels_")
+    try:
+        if c.integer("conf") == 0:
+            short = tmp + "/excerpt_2000_2005.bsp"
+            src = SPK.open(full)
+            with open(short, "w+b") as fp:
+                write_excerpt(src, fp, 2451544.5, 2453371.5, src.daf.summaries())
+            src.close()
+            files = [short, full]
+        else:
+            files = [full, full]
+        config["env"]["jpl"]["files"] = files
+        jpl._frame_cache.clear()
+        jpl._propagator_cache.clear()
+        jpl.Bsp._instance = None
+        jpl.create_frames()
+        date = Date(c.real("mjd"))
+        a, b = [(499, 399), (301, 10), (5, 299)][c.integer("pair")]
+        name = lambda i: jpl.target_names[i].title().replace(" ", "")
+        try:
+            got = np.asarray(jpl.get_orbit(name(a), date).copy(frame=name(b)), dtype=float)
+        except Exception as e:
+            c.ensure("served_from_the_kernel_listed_last", False)
+            return
+        k = SPK.open(full)
+        try:
+            jd = date.change_scale("TDB").jd
+            parent = {t: cen for (cen, t) in [(s_.center, s_.target) for s_ in k.segments]}
+
+            def wrt_ssb(i):
+                p, v = np.zeros(3), np.zeros(3)
+                while i != 0:
+                    pp, vv = k[parent[i], i].compute_and_differentiate(jd)
+                    p, v = p + pp, v + vv / 86400.0
+                    i = parent[i]
+                return p, v
+            pa, va = wrt_ssb(a)
+            pb, vb = wrt_ssb(b)
+        finally:
+            k.close()
+        ref = np.concatenate([pa - pb, va - vb]) * 1000
+        c.ensure("served_from_the_kernel_listed_last", bool(np.linalg.norm(got[:3] - ref[:3]) <= 1e-3 + 1e-14 * np.linalg.norm(ref[:3])))
+    finally:
+        for s_ in getattr(jpl.Bsp(), "_spk", []):
+            try:
+                s_.close()
+            except Exception:
+                pass
+        jpl.Bsp._instance = None
+        jpl._frame_cache.clear()
+        jpl._propagator_cache.clear()
+        shutil.rmtree(tmp, ignore_errors=True)
+
+
 def _one_hour():
     from datetime import timedelta
     return timedelta(hours=1)
